@@ -382,6 +382,21 @@ def gen_std_modules():
     avbc_embedded = not avbc_fallback and "for_source_file" not in avbc
     ini = strip_comments(rd("driver/src/modules/loader/init.rs"))
     source_project = bool(re.search(r"manifest\s*:\s*Manifest::for_source_file\(entry_file\)", fn_body(ini, "new", "loader/init.rs")))
+    # manifest discovery: the per-file manifest is `<file name>.toml` (whatever the extension of the entry file), then aelys.toml
+    man = strip_comments(rd("modules/src/manifest.rs"))
+    fsf = fn_body(man, "for_source_file", "manifest.rs")
+    per_file_ok = bool(re.search(r"file_name\(\)", fsf) and re.search(r"format!\(\s*\"\{\}\.toml\"\s*,\s*[a-z_]+\s*\)", fsf)
+                       and re.search(r"set_file_name\s*\(|with_file_name\s*\(", fsf) and "with_extension" not in fsf)
+    dir_ok = bool(re.search(r"join\(\s*\"aelys\.toml\"\s*\)", fsf))
+    # `compile` embeds the manifest whenever there is one (not only when natives are bundled)
+    comp = strip_comments(rd("cli/src/cli/commands/compile.rs"))
+    cb = fn_body(comp, "compile_to_avbc_with_output", "cli compile.rs")
+    mb = re.search(r"let\s+manifest_bytes\s*=\s*([^;]*);", cb)
+    if not mb:
+        raise ExtractError("cli compile.rs: manifest_bytes binding not found")
+    embed_always = bool(re.fullmatch(r"\s*loader\s*\.\s*manifest\(\)\s*\.\s*map\(\s*(?:Manifest::to_bytes|\|\s*m\s*\|\s*m\.to_bytes\(\))\s*\)\s*", mb.group(1)))
+    # every serialize branch other than the plain one must pass manifest_bytes
+    embed_used = len(re.findall(r"serialize_with_manifest\s*\(", cb)) >= 1 and bool(re.search(r"manifest_bytes\.is_some\(\)", cb))
     # fallthrough in load_required_modules: a std module that fails to register is looked up as a user/native module
     lr = fn_body(run, "load_required_modules", "cli run.rs")
     std_fallthrough = bool(re.search(r"if\s+try_load_std_module\([^)]*\)\.is_ok\(\)\s*\{\s*continue;\s*\}", lr))
@@ -437,6 +452,11 @@ def gen_std_modules():
     out.append(f"Definition aasm_route_passes_no_manifest : bool := {b(aasm_none)}.\n")
     out.append(f"Definition aasm_route_uses_project_manifest : bool := {b(aasm_project)}.\n")
     out.append(f"Definition avbc_route_falls_back_to_project_manifest : bool := {b(avbc_fallback)}.\n")
+    out.append("(* Manifest::for_source_file looks for `<file name>.toml` next to the entry file (any extension), then for aelys.toml in its directory *)\n")
+    out.append(f"Definition per_file_manifest_is_filename_dot_toml : bool := {b(per_file_ok)}.\n")
+    out.append(f"Definition directory_manifest_is_aelys_toml : bool := {b(dir_ok)}.\n")
+    out.append("(* `aelys compile` embeds the manifest in the .avbc whenever the project has one *)\n")
+    out.append(f"Definition compile_embeds_manifest_whenever_present : bool := {b(embed_always and embed_used)}.\n")
     out.append(f"Definition denied_std_module_falls_through_to_file_lookup : bool := {b(std_fallthrough)}.\n")
     out.append(f"Definition fnv_offset_file : N := {fnv[0]}%N.\nDefinition fnv_prime_file : N := {fnv[1]}%N.\n"
                f"Definition fnv_offset_bytes : N := {fnv[2]}%N.\nDefinition fnv_prime_bytes : N := {fnv[3]}%N.\n")
